@@ -934,7 +934,12 @@ impl<'a> Interp<'a> {
                             ev.params = Some(pv);
                         }
                     }
-                    self.out.push(Obs::IntSend(name));
+                    // the announced done event with its data (donedata is evaluated after the onentry content)
+                    let shown = match &ev.params {
+                        Some(p) => format!("{}{{{}}}", name, p.iter().map(|(k, v)| format!("{}={}", k, val_to_string(v))).collect::<Vec<_>>().join(";")),
+                        None => name.clone(),
+                    };
+                    self.out.push(Obs::IntSend(shown));
                     self.iq.push_back(ev);
                     if let Some(gp) = m.st[parent].parent {
                         if m.is_parallel(gp) && m.st[gp].children.iter().all(|c| self.is_in_final(*c)) {
